@@ -137,10 +137,13 @@ func (g *Gen) instr(b *ssa.BasicBlock, ins ssa.Instruction, st *State, r string)
 		}
 		g.storeType(st, g.val(x.Addr).T, x.Val.Type(), g.val(x.Val).T, g.addrHint(x.Addr))
 	case *ssa.Call:
+		g.siteClauses(b, x, st, r)
 		g.callInstr(x, x, st, r)
 	case *ssa.Go:
+		g.siteClauses(b, x, st, r)
 		g.stats.Abstractions["go"]++
 	case *ssa.Defer:
+		g.siteClauses(b, x, st, r)
 		g.defers = append(g.defers, x)
 		g.deferR[x] = r
 	case *ssa.RunDefers:
@@ -605,7 +608,12 @@ func (g *Gen) sliceInstr(x *ssa.Slice, st *State, r string) {
 		hi := opt(x.High, "(s_len "+xv.T+")")
 		mx := opt(x.Max, "(s_cap "+xv.T+")")
 		g.safety("slicebounds", r, "(and (<= 0 "+lo+") (<= "+lo+" "+hi+") (<= "+hi+" "+mx+") (<= "+mx+" (s_cap "+xv.T+")))", "slice bounds: "+x.X.Name()+"["+lo+":"+hi+"]", x.Pos())
-		g.defVal(x, "(mkslice (s_arr "+xv.T+") (+ (s_off "+xv.T+") "+lo+") (- "+hi+" "+lo+") (- "+mx+" "+lo+"))")
+		rv := g.defVal(x, "(mkslice (s_arr "+xv.T+") (+ (s_off "+xv.T+") "+lo+") (- "+hi+" "+lo+") (- "+mx+" "+lo+"))")
+		if isByteSlice(x.X.Type()) {
+			// derived fact: re-slicing within the length selects the corresponding sub-sequence
+			hb := g.heap(st, "bytes")
+			g.guardAssume(r, "(=> (<= "+hi+" (s_len "+xv.T+")) (= (bytesOf "+hb+" "+rv.T+") (sub (bytesOf "+hb+" "+xv.T+") "+lo+" "+hi+")))")
+		}
 	case *types.Pointer:
 		arr := tt.Elem().Underlying().(*types.Array)
 		g.nilCheck(x.X, r, "slice of array pointer", x.Pos())
@@ -752,4 +760,85 @@ func (g *Gen) nextInstr(x *ssa.Next, st *State, r string) {
 		v = g.freshTupleElem(x, st, tt.At(2).Type(), "nextr")
 	}
 	g.vals[x] = Val{Tuple: []Val{{T: ok, Sort: "Bool"}, k, v}}
+}
+
+// siteClauses applies the contract's "site" clauses that match this call/go/defer instruction.
+func (g *Gen) siteClauses(b *ssa.BasicBlock, ins ssa.CallInstruction, st *State, r string) {
+	if len(g.con.Sites) == 0 {
+		return
+	}
+	cc := ins.Common()
+	key := ""
+	switch {
+	case cc.IsInvoke():
+		key = ifaceMethodKey(cc.Value.Type(), cc.Method)
+	case cc.StaticCallee() != nil:
+		key = fnKey(cc.StaticCallee())
+	default:
+		key = "dynamic"
+	}
+	if _, isGo := ins.(*ssa.Go); isGo {
+		key = "go " + key
+	}
+	idx := -1
+	for i, x := range b.Instrs {
+		if x == ins.(ssa.Instruction) {
+			idx = i
+		}
+	}
+	var env *Env
+	for _, sc := range g.con.Sites {
+		if !strings.Contains(key, sc.Match) {
+			continue
+		}
+		ck := "site:" + sc.Match
+		if g.siteSeen == nil {
+			g.siteSeen = map[string]map[ssa.Instruction]int{}
+		}
+		if g.siteSeen[ck] == nil {
+			g.siteSeen[ck] = map[ssa.Instruction]int{}
+		}
+		ord, seen := g.siteSeen[ck][ins.(ssa.Instruction)]
+		if !seen {
+			ord = len(g.siteSeen[ck])
+			g.siteSeen[ck][ins.(ssa.Instruction)] = ord
+		}
+		if ord != sc.Ord {
+			continue
+		}
+		if env == nil {
+			vars := g.namesAt(b, idx)
+			// call arguments by the callee's formal names are also visible as $0, $1, ...
+			for i, a := range cc.Args {
+				if v, ok := g.valOpt(a); ok {
+					vars[fmt.Sprintf("$%d", i)] = v
+				}
+			}
+			env = g.envFor(vars, st, st)
+		}
+		switch sc.Kind {
+		case "assert":
+			t := g.mustClause(env, sc.E, "site "+sc.Match)
+			name := fmt.Sprintf("%s/site:%s#%d", shortKey(g.key), sc.Match, sc.Ord)
+			g.counters[name]++
+			if g.counters[name] > 1 {
+				name = fmt.Sprintf("%s@%d", name, g.counters[name]-1)
+			}
+			g.oblige(name, "site-assert", sc.Tags, r, t, sc.Src, ins.Pos())
+		case "ghost":
+			lv := env.tr(sc.LHS)
+			if !lv.isLv() || lv.GKind == "" {
+				panic(fmt.Errorf("site ghost update: %s is not a ghost location", sc.LHS))
+			}
+			rv := env.tr(sc.E)
+			var t string
+			if seqLike(rv) {
+				t = env.asSeq(rv)
+			} else {
+				t = env.rv(rv).T
+			}
+			// guarded update: only when control reaches the site
+			g.setHeap(st, lv.GKind, "(ite "+r+" (store "+g.heap(st, lv.GKind)+" "+lv.Addr+" "+t+") "+g.heap(st, lv.GKind)+")")
+		}
+	}
 }
